@@ -82,6 +82,7 @@ var rewritePkgs = []string{
 	"src.elv.sh/pkg/daemon",
 	"src.elv.sh/pkg/rpc",
 	"src.elv.sh/pkg/store",
+	"src.elv.sh/pkg/lsp",
 	"src.elv.sh/zzverif/h",
 }
 
@@ -481,7 +482,13 @@ func runWorkerFull(bin, scratch, prop, tier string, seed0 uint64, n int, deadlin
 		// worker while it runs seed `next`. That is a crash of the interpreter,
 		// not infrastructure trouble — unless the simulator's own watchdog
 		// fired. Confirm by re-running that seed alone.
-		if i := strings.Index(log, "fatal error: "); i >= 0 && !strings.Contains(log, "simrt watchdog") && n > 0 && extraEnv == nil {
+		i := strings.Index(log, "fatal error: ")
+		if i < 0 {
+			// an unrecovered panic on a goroutine born in un-instrumented
+			// library code (e.g. a protocol handler called by jsonrpc2)
+			i = strings.Index(log, "panic: ")
+		}
+		if i >= 0 && !strings.Contains(log, "simrt watchdog") && n > 0 && extraEnv == nil {
 			line := log[i:]
 			if j := strings.Index(line, "\n"); j > 0 {
 				line = line[:j]
@@ -510,7 +517,8 @@ func confirmFatal(bin, scratch, prop, tier string, seed uint64) bool {
 	if err == nil {
 		return false
 	}
-	return strings.Contains(string(out), "fatal error: ") && !strings.Contains(string(out), "simrt watchdog")
+	o := string(out)
+	return (strings.Contains(o, "fatal error: ") || strings.Contains(o, "panic: ")) && !strings.Contains(o, "simrt watchdog")
 }
 
 func runReplay(bin, scratch string, rf *ReplayFile, trace bool) (*Result, error) {
